@@ -27,6 +27,14 @@ def build(seed):
             return any(sp.match_file("/".join(parts[: i + 1])) for i in range(len(parts)))
         for k in truth:
             truth[k] = {p for p in truth[k] if not hid(p)}
+    if late is None:
+        # the same questions asked at the root of every nested history (its own generations carry the patterns of the
+        # parent runs that wrote into it)
+        nested = sorted({o["at"] for o in seal_ops if o["op"] == "create" and o.get("at") and not mutate.hidden(o["at"], pats)})
+        extra = []
+        for d in nested:
+            extra += [{"op": "verify", "at": d}, {"op": "diff", "at": d}]
+        checks = checks[:2] + extra + checks[2:]
     sc = {"seed": seed, "profile": "c03", "root": rnd.choice(["root", "my root"]), "tree": tree, "ops": seal_ops + mut_ops + checks,
           "c03": {"altered": sorted(truth["altered"]), "removed": sorted(truth["removed"]), "added": sorted(truth["added"]), "patterns": pats, "late_pattern": late, "n_seal": len(seal_ops), "n_mut": len(mut_ops)}}
     return sc
@@ -49,6 +57,12 @@ def monitor(sc, res):
             fails.append({"what": f"{k} aborted with {io_['exc']} (truth {meta})", "replay": sc})
             continue
         e = io_["exit"]
+        at = op.get("at", "")
+        if at:
+            # asked at a nested history: the part of the ground truth that lies below it, relative to it
+            alt, rem, add = ({p[len(at) + 1:] for p in x if p.startswith(at + "/")} for x in (set(meta["altered"]), set(meta["removed"]), set(meta["added"])))
+        else:
+            alt, rem, add = set(meta["altered"]), set(meta["removed"]), set(meta["added"])
         if k == "verify":
             exp = 11 if alt else (21 if add else (10 if rem else 0))
         elif k == "diff":
@@ -56,7 +70,7 @@ def monitor(sc, res):
         else:
             exp = 11 if alt else (10 if rem else 0)
         if e != exp:
-            fails.append({"what": f"{k} exits {e}, expected {exp}: altered {sorted(alt)}, removed {sorted(rem)}, added {sorted(add)}, patterns {meta['patterns']}", "replay": sc})
+            fails.append({"what": f"{k}{' at ' + repr(at) if at else ''} exits {e}, expected {exp}: altered {sorted(alt)}, removed {sorted(rem)}, added {sorted(add)}, patterns {meta['patterns']}", "replay": sc})
         if k in ("verify", "create") and set(io_["mismatch"]) != alt:
             fails.append({"what": f"{k} names hash mismatches {sorted(io_['mismatch'])}, altered files are {sorted(alt)}", "replay": sc})
         if set(io_["missing"]) != rem:
@@ -68,8 +82,22 @@ def monitor(sc, res):
     return fails
 
 
+def fixed():
+    """a parent's directory pattern reaches the nested history: asked at the nested root, the unchanged tree is clean"""
+    out = []
+    for pat in ("cache/", "*.bin", "A/cache", "cache"):
+        tree = {"A/cache/thumb.bin": "t", "A/x.txt": "x", "top.txt": "top", "cache/other.bin": "o"}
+        # the nested history is sealed first; files that the parent's pattern covers appear afterwards
+        seal = [{"op": "create", "at": "A", "h": ["md5"], "now": "2026-03-01 12:00:01"}, {"op": "write", "path": "A/sub/cache/deep.bin", "data": "d"}, {"op": "write", "path": "A/cache/late.bin", "data": "l"},
+                {"op": "create", "at": "", "h": ["md5"], "now": "2026-03-01 12:00:02", "i": [pat]}]
+        checks = [{"op": "verify", "at": ""}, {"op": "diff", "at": ""}] + ([{"op": "verify", "at": "A"}, {"op": "diff", "at": "A"}] if "/" not in pat.rstrip("/") else []) + [{"op": "create", "at": "", "h": ["sha1"], "now": "2026-03-01 12:30:00"}]
+        out.append({"profile": "c03-fixed", "root": "root", "tree": tree, "ops": seal + checks,
+                    "c03": {"altered": [], "removed": [], "added": [], "patterns": [pat], "late_pattern": None, "n_seal": 4, "n_mut": 0}})
+    return out
+
+
 def run(ctx):
-    scs = [build(ctx.seed * 1000211 + i) for i in range(ctx.scale(170, 3000))]
+    scs = fixed() + [build(ctx.seed * 1000211 + i) for i in range(ctx.scale(170, 3000))]
     return _scn.run_scn(ctx, scs, monitor, extra_fails=largefiles.extra(ctx), witness_ids=("D11", "D13", "D14", "D16"),
         assumptions=["ground truth = the mutations the harness itself applied after the last folder-mode create of the root", "altered contents differ from the sealed ones (by construction), so their digests differ in every format used (observed)"])
 
